@@ -126,6 +126,9 @@ FOG_ENTRIES = {
     "nearest_unknown.key": (BAD_NIBBLES, NIB_ERR), "nearest_right.key": (BAD_NIBBLES, NIB_ERR),
     "cache.get.prefix": (BAD_NIBBLES, NIB_ERR), "cache.delete.prefix": (BAD_NIBBLES, NIB_ERR),
     "cache.add.prefix": (BAD_NIBBLES, NIB_ERR), "cache.add.segment": (BAD_NIBBLES, NIB_ERR),
+    # a serialised fog whose prefixes are not plain nibble sequences (leaf-flagged hex-prefix
+    # bytes carry the pseudo-nibble 16)
+    "deserialize.prefix": (["hp-flag-2", "hp-flag-3", "hp-flag-3-long"], NIB_ERR),
 }
 TABLES = {"hexary": HEX_ENTRIES, "binary": BIN_ENTRIES, "smt": SMT_ENTRIES, "fog": FOG_ENTRIES}
 
@@ -429,6 +432,12 @@ def _run_fog(case, info):
         fog = impl("mark_all_complete", fog.mark_all_complete, [(15,)])
     model = {tuple(int(x) for x in p) for p in fog._unexplored_prefixes}
     before = (set(model), impl("serialize", fog.serialize))
+    if entry == "deserialize.prefix":
+        blob = {"hp-flag-2": b"HexaryTrieFog:[b' \\x12']", "hp-flag-3": b"HexaryTrieFog:[b'1']",
+                "hp-flag-3-long": b"HexaryTrieFog:[b'\\x00#', b'1#']"}[kind]
+        r = impl(entry, HexaryTrieFog.deserialize, blob, allowed=(Exception,))
+        _refused(entry, kind, r, NIB_ERR)
+        return True
     bad = bad_nibbles(kind)
     E = (Exception,)
     cache = impl("construct", TrieFrontierCache)
